@@ -46,6 +46,28 @@ class rcu_guarded {
 
         explicit write_handle(T* ptr);
 
+        /** a copy is a handle of its own: it registers with the list on its
+         * first access and does not share the registration of its source*/
+        write_handle(const write_handle& other):
+            m_ptr(other.m_ptr), m_accessed(false)
+        {
+        }
+        /** a moved-to handle takes the registration over, the moved-from one
+         * no longer releases it*/
+        write_handle(write_handle&& other) noexcept:
+            m_ptr(other.m_ptr), m_guard(other.m_guard),
+            m_accessed(other.m_accessed)
+        {
+            other.m_accessed = false;
+        }
+        write_handle& operator=(write_handle other) noexcept
+        {
+            std::swap(m_ptr, other.m_ptr);
+            std::swap(m_guard, other.m_guard);
+            std::swap(m_accessed, other.m_accessed);
+            return *this;
+        }
+
         ~write_handle()
         {
             if (m_accessed) {
@@ -85,6 +107,28 @@ class rcu_guarded {
         using element_type = const T;
 
         explicit read_handle(const T* ptr): m_ptr(ptr), m_accessed(false) {}
+
+        /** a copy is a handle of its own: it registers with the list on its
+         * first access and does not share the registration of its source*/
+        read_handle(const read_handle& other):
+            m_ptr(other.m_ptr), m_accessed(false)
+        {
+        }
+        /** a moved-to handle takes the registration over, the moved-from one
+         * no longer releases it*/
+        read_handle(read_handle&& other) noexcept:
+            m_ptr(other.m_ptr), m_guard(other.m_guard),
+            m_accessed(other.m_accessed)
+        {
+            other.m_accessed = false;
+        }
+        read_handle& operator=(read_handle other) noexcept
+        {
+            std::swap(m_ptr, other.m_ptr);
+            std::swap(m_guard, other.m_guard);
+            std::swap(m_accessed, other.m_accessed);
+            return *this;
+        }
 
         ~read_handle()
         {
